@@ -6,7 +6,10 @@
    The section variables are the libraries the handlers call (nbformat, nbdime's differ and merger, path
    resolution, the network): the theorems hold for every behaviour of those. *)
 From Coq Require Import List NArith ZArith Bool String.
-From NB Require Import Base.Json Gen.ServerFacts Sys.Server Sys.ServerProofs.
+From NB Require Import Base.Json.
+From NB Require Import Gen.ServerFacts.
+From NB Require Import Sys.Server.
+From NB Require Import Sys.ServerProofs.
 Import ListNotations.
 Local Open Scope string_scope.
 Local Open Scope list_scope.
